@@ -128,7 +128,8 @@ def support_lines(lines, rng, pars_fixed=None, omit=()):
             kinds.setdefault(r["lskind"], set()).add(r["name"])
     for name in sorted(kinds.get("GSpline", ())):
         n = rng.randint(2, 5)
-        out += [f"{name}::Spline::Min 0.18412", f"{name}::Spline::Max 1.9", f"{name}::Spline::N {n}"]
+        lo, hi = rng.choice([("0.18412", "1.9"), ("0.25", "2.5"), ("0.6", "3.0"), ("0.18412", "3.0")])
+        out += [f"{name}::Spline::Min {lo}", f"{name}::Spline::Max {hi}", f"{name}::Spline::N {n}"]
         for i in range(n):
             out.append(f"{name}::Spline::Gamma::{i}   {rng.choice([0, 2])}   {0.001 * (i + 1) + rng.random() * 1e-6:.10f}   "
                        f"{0.000100001234 if i % 2 else 0}")
